@@ -80,11 +80,11 @@ pub fn e1_jobs(prop: &str, tier: Tier) -> (Vec<E1Job>, usize) {
         "C07" => if q { vec![pe(1, true, 2), pe(2, true, 1), pe(1, false, 3)] } else { vec![pe(2, true, 2), pe(1, true, 3)] },
         "C10" => if q { vec![pa(3), pb(3), pbs(4), pc(6), pd(5), paj(4), pa15(4)] } else { vec![pa(3), pa1(4), pb(4), pbs(5), pc(8), pd(7)] },
         "C12" => if q { vec![pf(4)] } else { vec![pf(6)] },
-        "C13" => if q { vec![pf(4), pe(1, true, 2), E1Job { profile: Profile::S, depth: 2, alt_map: false }, E1Job { profile: Profile::S, depth: 3, alt_map: false }] } else { vec![pf(5), pe(2, true, 2), E1Job { profile: Profile::S, depth: 3, alt_map: false }] },
+        "C13" => if q { vec![pf(5), pe(1, true, 2), pe(2, true, 1), paj(3), E1Job { profile: Profile::S, depth: 3, alt_map: false }] } else { vec![pf(5), pe(2, true, 2), E1Job { profile: Profile::S, depth: 3, alt_map: false }] },
         "C04x" => vec![],
         "C18" => if q { vec![pill(4), pc(7), pbs(3), pn(3), paj(4), pc3(9)] } else { vec![pill(5), pc(9), pc3(10), paj(5), pb(4), pn(4), pe(1, true, 2)] },
         "C19" => if q { vec![pa15(3), pb(3), pd(5), pe(1, true, 2), pc(5), paj(4)] } else { vec![pa(3), pb(4), pd(6), pe(1, true, 2), pc(7), pf(4), paj(5), paj5(4)] },
-        "C20" => if q { vec![pn(4), pbs(3), pc(6), pd(4), pe(1, false, 2), paj(4)] } else { vec![pn(5), pb(4), pc(8), pd(6), pe(1, true, 2)] },
+        "C20" => if q { vec![pn(5), pb(3), pc(7), pd(5), pe(1, true, 2), paj(4), pa15(3)] } else { vec![pn(5), pb(4), pc(8), pd(6), pe(1, true, 2)] },
         _ => vec![],
     };
     let fam_n = match prop {
@@ -802,7 +802,7 @@ pub fn run_c15(tier: Tier, budget: Duration, frag: &mut Frag) {
     let start = Instant::now();
     let jobs: Vec<(usize, Vec<u32>, usize)> = if q {
         // (script length, bounds, number of plans used)
-        vec![(3, vec![0, 1, 2], 2), (3, vec![0, 1], 6), (4, vec![0, 1], 1)]
+        vec![(3, vec![0, 1, 2, 3], 6), (4, vec![0, 1, 2], 3), (5, vec![0, 1], 1)]
     } else {
         vec![(3, vec![0, 1, 2, 3], 6), (4, vec![0, 1, 2], 6), (5, vec![0, 1], 3), (5, vec![0, 1, 2], 1)]
     };
@@ -909,7 +909,7 @@ pub fn run_c16(tier: Tier, budget: Duration, frag: &mut Frag) {
 pub fn run_c09(tier: Tier, budget: Duration, frag: &mut Frag) {
     let q = tier == Tier::Quick;
     let t0 = Instant::now();
-    let jobs: Vec<(usize, bool)> = if q { vec![(2, true), (3, false)] } else { vec![(3, true), (4, false)] };
+    let jobs: Vec<(usize, bool)> = if q { vec![(3, true)] } else { vec![(3, true), (4, false)] };
     let n = jobs.len() as u32;
     for (depth, full) in jobs {
         let t1 = Instant::now();
@@ -938,11 +938,12 @@ pub fn run_c09(tier: Tier, budget: Duration, frag: &mut Frag) {
 pub fn run_c08(tier: Tier, budget: Duration, frag: &mut Frag) {
     let q = tier == Tier::Quick;
     let t0 = Instant::now();
-    let depth = if q { 5 } else { 7 };
-    let (st, samples) = crate::c08::run_bfs(depth, 3, t0 + budget / 2, &mut frag.col);
+    let depth = if q { 6 } else { 8 };
+    let guards = if q { 4 } else { 5 };
+    let (st, samples) = crate::c08::run_bfs(depth, guards, t0 + budget / 2, &mut frag.col);
     frag.parts.push(json!({
         "engine": "E3 histmc",
-        "what": format!("borrow histories: breadth-first over {} operations (fetch / fetch_mut / try_* / by-id / 4 composite system-data types / meta-table iter and iter_mut / clone / drop / acquire-then-panic), <= 3 live guards, depth <= {}, de-duplicated on the observed state (per-cell borrow state + live guard shapes)", crate::c08::alphabet(3).len(), depth),
+        "what": format!("borrow histories: breadth-first over {} operations (fetch / fetch_mut / try_* / by-id / 4 composite system-data types / meta-table iter and iter_mut / clone / drop / acquire-then-panic), <= {} live guards, depth <= {}, de-duplicated on the observed state (per-cell borrow state + live guard shapes)", crate::c08::alphabet(guards).len(), guards, depth),
         "histories_tried": st.histories, "enabled_transitions": st.transitions, "distinct_observed_states": st.states, "max_depth": st.max_depth, "cap_hit": st.capped, "wall_s": t0.elapsed().as_secs_f64(),
     }));
     frag.states += st.states;
